@@ -328,6 +328,59 @@ func (p *Peer) loadAndPublishReplicators(ctx context.Context) error {
 	return nil
 }
 
+// resetInterruptedReplicatorRetries clears the retrying flag of every replicator retry record.
+//
+// The flag is stored with the record and marks a retry as running. If the node stops in the middle of
+// a retry the flag stays set, and as retryReplicators skips records that are flagged, the documents
+// of that replicator would never be retried again.
+func (p *Peer) resetInterruptedReplicatorRetries(ctx context.Context) error {
+	peerstore := datastore.PeerstoreFrom(p.db.Rootstore())
+	iter, err := peerstore.Iterator(ctx, corekv.IterOptions{
+		Prefix: []byte(keys.REPLICATOR_RETRY_ID),
+	})
+	if err != nil {
+		return err
+	}
+	interrupted := map[string]retryInfo{}
+	for {
+		hasNext, err := iter.Next()
+		if err != nil {
+			return errors.Join(err, iter.Close())
+		}
+		if !hasNext {
+			break
+		}
+		value, err := iter.Value()
+		if err != nil {
+			return errors.Join(err, iter.Close())
+		}
+		rInfo := retryInfo{}
+		if err := cbor.Unmarshal(value, &rInfo); err != nil {
+			// retryReplicators deletes records that cannot be read
+			continue
+		}
+		if rInfo.Retrying {
+			interrupted[string(iter.Key())] = rInfo
+		}
+	}
+	err = iter.Close()
+	if err != nil {
+		return err
+	}
+	for key, rInfo := range interrupted {
+		rInfo.Retrying = false
+		b, err := cbor.Marshal(rInfo)
+		if err != nil {
+			return err
+		}
+		err = peerstore.Set(ctx, []byte(key), b)
+		if err != nil {
+			return err
+		}
+	}
+	return nil
+}
+
 // handleReplicatorRetries manages retries for failed replication attempts.
 func (p *Peer) handleReplicatorRetries(ctx context.Context) {
 	for {
